@@ -54,6 +54,8 @@ type PConn struct {
 	mu        sync.Mutex
 	readErr   chan error
 	writeErr  error
+	failNext  int   // this many further WriteTo calls fail with failErr (a transient fault)
+	failErr   error
 	Overflow  int // datagrams dropped because the inbox was full
 	Writes    int
 }
@@ -135,6 +137,10 @@ func (c *PConn) WriteTo(b []byte, addr net.Addr) (int, error) {
 	}
 	c.mu.Lock()
 	werr := c.writeErr
+	if werr == nil && c.failNext > 0 {
+		c.failNext--
+		werr = c.failErr
+	}
 	c.Writes++
 	c.mu.Unlock()
 	if werr != nil {
@@ -180,6 +186,14 @@ func (c *PConn) InjectReadError(err error) {
 func (c *PConn) InjectWriteError(err error) {
 	c.mu.Lock()
 	c.writeErr = err
+	c.mu.Unlock()
+}
+
+// FailWrites makes the next n WriteTo calls fail with err; after that the
+// socket works again (a route that disappears for a moment).
+func (c *PConn) FailWrites(n int, err error) {
+	c.mu.Lock()
+	c.failNext, c.failErr = n, err
 	c.mu.Unlock()
 }
 
